@@ -36,6 +36,8 @@ _T = ["rv.readers.reader:read_sunvox_file", "rv.readers.reader:Reader.process_ch
       "rv.readers.pattern:PatternCloneReader.process_*", "rv.project:Project.attach_module", "rv.modules.module:Module.set_raw"]
 
 UNKNOWN_ID = b"zQx7"
+# four bytes that are no documented chunk id (the documented ones are upper-case ASCII, space-padded on the right)
+ODD_UNKNOWN_IDS = [b"BPM\t", b"BPM\n", b" BPM", b"\tBPM", b"GVOL"[:3] + b"\x0b", b"\xff\xfeAB", b"\x00\x00\x00\x01", b"caf\xc3"]
 
 
 def _class_cases(tier):
@@ -471,7 +473,7 @@ def _norm(obj):
 
 @contract(
     "fixtures_with_structure_preserving_edits", ["C04"], targets=_T, cases=_fixture_cases, kind="bounded",
-    bound="all shipped fixture files; unknown chunk inserted at every top-level chunk boundary (quick: every 7th) ; CVAL list truncated at every length (quick: 3 lengths); native evaluation",
+    bound="all shipped fixture files; unknown chunk inserted at every top-level chunk boundary (quick: every 7th), eight odd unknown ids (white-space variants of documented ids, non-text bytes) at three positions; CVAL list truncated at every length (quick: 3 lengths); native evaluation",
 )
 def fixtures_with_structure_preserving_edits(H, path):
     """Run-time contract evaluation on concrete files: inserting an unknown chunk at a top-level chunk
@@ -489,6 +491,18 @@ def fixtures_with_structure_preserving_edits(H, path):
         except Exception as e:  # noqa
             same = False
         H.check("unknown_chunk_changes_nothing", same, witness={"file": os.path.basename(path), "position": pos})
+    # ids that are NOT in the format although they resemble documented ones or are not even text: a
+    # documented id with different padding / white space, and arbitrary bytes.  Payloads are 4 bytes so
+    # that a reader which mistook one of them for the documented chunk would visibly change a field.
+    for odd in ODD_UNKNOWN_IDS:
+        for pos in sorted({1, len(chunks) // 2, len(chunks) - 1}):
+            edited = _stream(chunks[:pos] + [(odd, b"\xe7\x03\x00\x00")] + chunks[pos:])
+            try:
+                same = _norm(_load(edited)) == base
+                err = None
+            except Exception as e:  # noqa
+                same, err = False, repr(e)
+            H.check("odd_unknown_id_is_skipped", same, witness={"file": os.path.basename(path), "id": repr(odd), "position": pos, "error": err})
     if path.endswith(".sunsynth"):
         cv = [i for i, c in enumerate(chunks) if bytes(c[0]) == b"CVAL"]
         full = _load(data).module
